@@ -120,9 +120,18 @@ pub fn accepted(rng: &mut Rng, o: &Opts) -> (B, Vec<u8>) {
   info.push((b"name".to_vec(), B::s(&name)));
   let p: i128 = *rng.pick(&[1i128, 16384, 32768, 1 << 20, 12345, (1i128 << 32) - 1, 1 << 40]);
   info.push((b"piece length".to_vec(), B::Int(p)));
-  let npieces = rng.below(4) as usize;
+  // mostly a few pieces; now and then enough of them that the file outgrows any I/O buffer, rarely a megabyte of them
+  let npieces = match rng.below(60) {
+    0 => 55_000,
+    1..=5 => rng.range(600, 3000) as usize,
+    _ => rng.below(4) as usize,
+  };
   info.push((b"pieces".to_vec(), B::Bytes(rng.bytes(20 * npieces))));
-  let md5 = |rng: &mut Rng| B::s(&rng.bytes(16).iter().map(|b| format!("{b:02x}")).collect::<String>());
+  // (hex digits in either case)
+  let md5 = |rng: &mut Rng| {
+    let h = rng.bytes(16).iter().map(|b| format!("{b:02x}")).collect::<String>();
+    B::s(&if rng.chance(1, 4) { h.to_uppercase() } else { h })
+  };
   if rng.chance(1, 3) {
     info.push((b"length".to_vec(), B::Int(rand_len(rng))));
     if rng.chance(1, 3) {
@@ -186,7 +195,15 @@ pub fn accepted(rng: &mut Rng, o: &Opts) -> (B, Vec<u8>) {
   if rng.chance(1, 3) {
     // mostly a few tiers; sometimes more than nine (labels `Tier 10`, `Tier 11` sort before `Tier 2` as text)
     let n_tiers = if rng.chance(1, 6) { rng.range(10, 13) } else { rng.below(4) };
-    let tiers = (0..n_tiers).map(|t| B::List((0..rng.below(3)).map(|_| B::s(&format!("{}#{t}", rand_url(rng)))).collect())).collect();
+    let mut tiers: Vec<B> = (0..n_tiers).map(|t| B::List((0..rng.below(3)).map(|_| B::s(&format!("{}#{t}", rand_url(rng)))).collect())).collect();
+    // the usual layout: the announce URL is also the first entry of the first tier
+    if let (Some((_, a)), true) = (top.iter().find(|(k, _)| k == b"announce"), rng.chance(1, 2)) {
+      let a = a.clone();
+      match tiers.first_mut() {
+        Some(B::List(t0)) => t0.insert(0, a),
+        _ => tiers.insert(0, B::List(vec![a])),
+      }
+    }
     top.push((b"announce-list".to_vec(), B::List(tiers)));
   }
   if rng.chance(1, 3) {
@@ -207,7 +224,7 @@ pub fn accepted(rng: &mut Rng, o: &Opts) -> (B, Vec<u8>) {
   }
   if o.unknown_keys {
     for _ in 0..rng.below(3) {
-      let k = if rng.chance(1, 3) { rng.pick(&["azureus_properties", "a", "hidden info", "info ", "infox", "libtorrent_resume"]).as_bytes().to_vec() } else { unknown_key(rng, &TOP_KEYS) };
+      let k = if rng.chance(1, 3) { rng.pick(&["azureus_properties", "a", "hidden info", "info ", "infox", "libtorrent_resume", "INFO", "Info", "url-list", "publisher", "magnet-uri", "nodes "]).as_bytes().to_vec() } else { unknown_key(rng, &TOP_KEYS) };
       if !top.iter().any(|(kk, _)| *kk == k) {
         let d = rng.below(o.max_depth as u64 + 1) as usize;
         let v = if rng.chance(1, 3) { decoy_value(rng) } else { rand_value(rng, d) };
